@@ -216,11 +216,13 @@ def cbaRes (st : MState) (a : Auction) (bids : List Bid) (keysR keysM : List Acc
       ++ [⟨GName.matchedLenSet, [.int (a.id : Int), .int (st.matched.length : Int)]⟩])
 
 theorem CBA_eq (a : Auction) (bids : List Bid) (prices : List Dec)
-    (byPrice : Dec → Option (List Bid)) (allowed : List Allowed) (keysR keysM : List Acc) (hkMnd : keysM.Nodup) :
-    Gen.CalculateBatchAllocation a bids prices byPrice allowed keysR keysM =
+    (byPrice : Dec → Option (List Bid)) (allowed : List Allowed) (keysR keysM : List Acc) (hkMnd : keysM.Nodup)
+    (bidsF : Int → List Bid) (hbF : bidsF (a.id : Int) = bids)
+    (allowedF : Int → List Allowed) (haF : allowedF (a.id : Int) = allowed) :
+    Gen.CalculateBatchAllocation a bidsF prices byPrice allowedF keysR keysM =
       cbaRes (finalMatchRes a prices byPrice allowed) a bids keysR keysM := by
   unfold Gen.CalculateBatchAllocation
-  simp only [ba_loop1, ba_loop2, ba_loop3 _ _ _ hkMnd, ba_loop4, ba_loop5]
+  simp only [hbF, haF, ba_loop1, ba_loop2, ba_loop3 _ _ _ hkMnd, ba_loop4, ba_loop5]
   rfl
 
 theorem ids_contains (l : List Bid) (n : Nat) :
@@ -322,19 +324,21 @@ theorem tie_CalculateBatchAllocation (a : Auction) (bids sorted : List Bid) (pri
     (hal : ∀ b ∈ sorted, (lookupAllowed allowed b.bidder).isSome = true)
     (hnd : (allowed.map (·.bidder)).Pairwise (· < ·))
     (hkR : ∀ u, u ∈ keysR ↔ u ∈ biddersOf bids) (hkRnd : keysR.Nodup)
-    (hkM : ∀ u, u ∈ keysM ↔ ((finalMatchRes a prices byPrice allowed).byBidder u).isSome = true) (hkMnd : keysM.Nodup) :
+    (hkM : ∀ u, u ∈ keysM ↔ ((finalMatchRes a prices byPrice allowed).byBidder u).isSome = true) (hkMnd : keysM.Nodup)
+    (bidsF : Int → List Bid) (hbF : bidsF (a.id : Int) = bids)
+    (allowedF : Int → List Allowed) (haF : allowedF (a.id : Int) = allowed) :
     match calcBatchWith sorted a bids allowed with
     | none => False
     | some mi =>
-      (Gen.CalculateBatchAllocation a bids prices byPrice allowed keysR keysM).2.1 = false ∧
-      (Gen.CalculateBatchAllocation a bids prices byPrice allowed keysR keysM).1.matchedLen = mi.matchedLen ∧
-      (Gen.CalculateBatchAllocation a bids prices byPrice allowed keysR keysM).1.price = mi.price ∧
-      (Gen.CalculateBatchAllocation a bids prices byPrice allowed keysR keysM).1.total = mi.total ∧
+      (Gen.CalculateBatchAllocation a bidsF prices byPrice allowedF keysR keysM).2.1 = false ∧
+      (Gen.CalculateBatchAllocation a bidsF prices byPrice allowedF keysR keysM).1.matchedLen = mi.matchedLen ∧
+      (Gen.CalculateBatchAllocation a bidsF prices byPrice allowedF keysR keysM).1.price = mi.price ∧
+      (Gen.CalculateBatchAllocation a bidsF prices byPrice allowedF keysR keysM).1.total = mi.total ∧
       mi.alloc = (biddersOf bids).map
-        (fun u => (u, ((Gen.CalculateBatchAllocation a bids prices byPrice allowed keysR keysM).1.alloc u).getD 0)) ∧
+        (fun u => (u, ((Gen.CalculateBatchAllocation a bidsF prices byPrice allowedF keysR keysM).1.alloc u).getD 0)) ∧
       mi.refund = (biddersOf bids).map
-        (fun u => (u, ((Gen.CalculateBatchAllocation a bids prices byPrice allowed keysR keysM).1.refund u).getD 0)) ∧
-      (Gen.CalculateBatchAllocation a bids prices byPrice allowed keysR keysM).2.2 = flagEffs a bids mi := by
+        (fun u => (u, ((Gen.CalculateBatchAllocation a bidsF prices byPrice allowedF keysR keysM).1.refund u).getD 0)) ∧
+      (Gen.CalculateBatchAllocation a bidsF prices byPrice allowedF keysR keysM).2.2 = flagEffs a bids mi := by
   have _ := hkRnd  -- (the result does not depend on `keysR` being duplicate-free)
   have hstep := closure_step prices byPrice a.sellAmt allowed sorted hsorted hlevel hdesc hty hal hnd
   have hs := search_tie (fun h => matchAt (prices.getD (prices.length - 1 - h) 0) sorted a.sellAmt allowed)
@@ -344,7 +348,7 @@ theorem tie_CalculateBatchAllocation (a : Auction) (bids sorted : List Bid) (pri
       prices.length ((0 : Nat) : Int) (prices.length : Int) initSt).2 = finalMatchRes a prices byPrice allowed := by
     simp only [finalMatchRes, Go.sortSearch, Int.toNat_natCast]; rfl
   rw [hfin] at hs
-  rw [CBA_eq a bids prices byPrice allowed keysR keysM hkMnd]
+  rw [CBA_eq a bids prices byPrice allowed keysR keysM hkMnd bidsF hbF allowedF haF]
   unfold calcBatchWith
   simp only [← hprices]
   cases hsl : searchLoop (fun h => matchAt (prices.getD (prices.length - 1 - h) 0) sorted a.sellAmt allowed)
